@@ -46,6 +46,18 @@ for name,head in [
 ]:
     case('malformed class %s, followed by a request that must never be seen' % name,'codec','a2',FIRST+head+NEXT,'cls='+name)
     case('%s at connection level (write side pending)' % name,'conn','c33',FIRST+head+NEXT,'e=0 wp=1 cls='+name)
+# pipelining overlap in the dispatcher (DESIGN F1c, fixed on main by 4ad0000; seeded change C01-3):
+# the read that completes request N also holds the head and part of the body of request N+1
+PA=b"POST /a HTTP/1.1\r\nContent-Length: 3\r\n\r\nabc"
+PB=b"POST /b HTTP/1.1\r\nContent-Length: 5\r\n\r\nhello"
+PC=b"GET /c HTTP/1.1\r\n\r\n"
+for rb in (0,1,2):
+    case('F1c: every 2-cut of POST /a, POST /b, GET /c; handler answers with body kind %d' % rb,'conn','a2',PA+PB+PC,'e=0 wp=0 rb=%d' % rb)
+case('F1c: the cut two bytes before the end of /b (was: /b never completed, /c never seen)','conn','c84',PA+PB+PC,'e=0 wp=1 rb=1')
+SEED=b"GET /a HTTP/1.1\r\nHost: x\r\n\r\nPOST /b HTTP/1.1\r\nHost: x\r\nContent-Length: 10\r\n\r\nhelloworldPOST /c HTTP/1.1\r\nHost: x\r\nTransfer-Encoding: chunked\r\n\r\n4\r\nwxyz\r\n0\r\n\r\nGET /d HTTP/1.1\r\nHost: x\r\n\r\n"
+for rb in (1,2):
+    case('seeded C01-3 shape: GET, POST(CL), POST(chunked), GET; non-empty response bodies; every 2-cut','conn','a2',SEED,'e=0 wp=0 rb=%d' % rb)
+case('same, one byte per read, write side pending','conn','b1',SEED,'e=1 wp=1 rb=2')
 # well-formed edge cases
 LONG=CH+b"A;x=\"1 2\"\r\n0123456789\r\n0003 \t\r\nabc\r\n1\t;q\r\nZ\r\n000;last\r\n\r\n"+NEXT
 case('CL 0 then pipelined request; HTTP/1.0 POST with CL 0','codec','a2',b"POST /a HTTP/1.0\r\nContent-Length: 0\r\nConnection: keep-alive\r\n\r\nGET /b HTTP/1.1\r\n\r\n")
